@@ -1033,6 +1033,19 @@ pub fn request_raw(db: &Db, op: &Op) -> Out {
             Out::Val(be.on_ts(*n, *i, *w))
         }
         Op::QInt(ty, d) => Out::Val(intern(db, *ty, *d, false).0),
+        Op::QK(n, kind) => {
+            let code = t.nodes[*n as usize];
+            let f = F::of_kind(*kind);
+            let key = code.as_id().as_bits();
+            cx.rec(Rec::CallBegin { th: cur_thread(), f, key });
+            let v = match kind {
+                Kind::NoEq => ev_noeq(db, code).x,
+                Kind::Lru => ev_lru(db, code).x,
+                _ => ev(db, code).x,
+            };
+            cx.rec(Rec::CallEnd { th: cur_thread(), f, key, val: v });
+            Out::Val(v)
+        }
         Op::NewInput(v) => {
             let c = Cell::new(db, *v);
             let back = c.v(db);
@@ -1134,7 +1147,7 @@ impl Sess {
                 self.db.synthetic_write(sdur(*d));
                 Out::Unit
             }
-            Op::Q(_) | Op::Q2(..) | Op::Q0 | Op::Acc(_) | Op::QFld(..) | Op::QOnTs(..) | Op::QInt(..) | Op::NewInput(_) => {
+            Op::Q(_) | Op::Q2(..) | Op::Q0 | Op::Acc(_) | Op::QFld(..) | Op::QOnTs(..) | Op::QInt(..) | Op::NewInput(_) | Op::QK(..) => {
                 request_raw(&self.db, op)
             }
             Op::Prefill(n) => {
